@@ -377,6 +377,11 @@ func main() {
 		}
 	}
 
+	tables := ""
+	if blk != nil {
+		tables = blk.switchTables()
+	}
+
 	if len(broken) > 0 {
 		sort.Strings(broken)
 		for _, m := range broken {
@@ -397,6 +402,7 @@ func main() {
 	}
 	write("Consts.lean", b.String())
 	write("Leaf.lean", l.String())
+	write("Tables.lean", tables)
 	fj, _ := json.MarshalIndent(facts, "", " ")
 	write("facts.json", string(fj)+"\n")
 }
